@@ -746,6 +746,12 @@ func (r *runner) checkFinal(s *scen) {
 	}
 	o := s.observe(s.hash)
 	if s.ending != "done" || !o.generated || !o.genG || !o.genR {
+		if s.life != nil && s.life.overStored {
+			r.addViol(s, "stored-share-lost-by-start-panic",
+				fmt.Sprintf("%d >= k=%d honest members' valid shares were delivered after the proposal was accepted from a chain notification, but the first one was stored by round0 next to a message with an over-long signer id; round1.Start ranged over that message first, its panic (ID.Serialize) escaped the loop and the honest share was never processed (its id stays in futureMessages, a re-send is refused)", len(s.honest), s.ks.k),
+				map[string]interface{}{"state": o.line, "note": "depends on Go map iteration order: the searcher repeats the script"})
+			return
+		}
 		r.addViol(s, "honest-quorum-not-finalised",
 			fmt.Sprintf("%d >= k=%d honest members' valid shares were delivered, yet the block was not finalised (ending=%q)", len(s.honest), s.ks.k, s.ending),
 			map[string]interface{}{"state": o.line})
